@@ -18,6 +18,7 @@ pub fn run(stim: &Value, rec: &Rec) {
     let ncalls = stim["calls"].as_u64().unwrap_or(5);
     let stim_ct = stim["connect_timeout"].as_bool().unwrap_or(false);
     let stim_opts: Vec<String> = stim["ep_opts"].as_array().map(|a| a.iter().filter_map(|x| x.as_str().map(|s| s.to_string())).collect()).unwrap_or_default();
+    let stim_zero: Vec<u64> = stim["zero_calls"].as_array().map(|a| a.iter().filter_map(|x| x.as_u64()).collect()).unwrap_or_default();
     let stim_kinds: Vec<String> = stim["fail_kinds"].as_array().map(|a| a.iter().filter_map(|x| x.as_str().map(|s| s.to_string())).collect()).unwrap_or_default();
     let env = Arc::new(Mutex::new(Env { script, pos: 0, consumed: vec![], kills: vec![], invocations: 0 }));
     let log = rec.clone();
@@ -86,12 +87,17 @@ pub fn run(stim: &Value, rec: &Rec) {
             }
             tokio::time::sleep(Duration::from_millis(1)).await;
             log.ev(json!({"e":"issue","i":i}));
-            let r = tokio::time::timeout(Duration::from_secs(3600), cl.unary(tonic::Request::new(vec![1u8]))).await;
+            // stim.zero_calls: these calls carry a deadline that has already expired (grpc-timeout: 0): they may be cut off at once, but
+            // they go through the channel like any other call and must leave it in the same state
+            let zero = stim_zero.contains(&i);
+            let mut rq = tonic::Request::new(vec![1u8]);
+            if zero { rq.set_timeout(Duration::ZERO); }
+            let r = tokio::time::timeout(Duration::from_secs(3600), cl.unary(rq)).await;
             let consumed = std::mem::take(&mut env.lock().unwrap().consumed);
             match r {
-                Err(_) => log.ev(json!({"e":"call","i":i,"res":"hang","code":-1,"consumed":consumed,"killed_before":killed})),
-                Ok(Ok(_)) => log.ev(json!({"e":"call","i":i,"res":"ok","code":0,"consumed":consumed,"killed_before":killed})),
-                Ok(Err(s)) => log.ev(json!({"e":"call","i":i,"res":"err","code":s.code() as i32,"msg":str_json(s.message()),"consumed":consumed,"killed_before":killed})),
+                Err(_) => log.ev(json!({"e":"call","i":i,"res":"hang","code":-1,"consumed":consumed,"killed_before":killed,"zero":zero})),
+                Ok(Ok(_)) => log.ev(json!({"e":"call","i":i,"res":"ok","code":0,"consumed":consumed,"killed_before":killed,"zero":zero})),
+                Ok(Err(s)) => log.ev(json!({"e":"call","i":i,"res":"err","code":s.code() as i32,"msg":str_json(s.message()),"consumed":consumed,"killed_before":killed,"zero":zero})),
             }
             tokio::time::sleep(Duration::from_millis(1)).await;
         }
